@@ -5,6 +5,8 @@ import (
 
 	. "vh/lib"
 
+	"github.com/cnotch/ipchub/av/codec"
+	"github.com/cnotch/ipchub/av/codec/aac"
 	"github.com/cnotch/ipchub/av/codec/h264"
 	"github.com/cnotch/ipchub/utils"
 	"github.com/cnotch/ipchub/utils/bits"
@@ -37,7 +39,27 @@ func h264Decode(data []byte) Val {
 	return vobs(err, sps.Width(), sps.Height(), sps.FrameRate(), sps.IsFixedFrameRate())
 }
 
+func ascDecode(data []byte) Val {
+	var asc aac.AudioSpecificConfig
+	in := append([]byte{}, data...)
+	if err := asc.Decode(in); err != nil {
+		return L(I(0))
+	}
+	rate := asc.SampleRate
+	if asc.ExtSampleRate > 0 {
+		rate = asc.ExtSampleRate
+	}
+	// the same through the stream-metadata shortcut
+	am := codec.AudioMeta{Sps: in}
+	if !aac.MetadataIsReady(&am) || am.SampleRate != rate || am.Channels != int(asc.Channels) {
+		return L(I(2), I(int64(am.SampleRate)), I(int64(am.Channels)))
+	}
+	return L(I(1), I(int64(rate)), I(int64(asc.Channels)))
+}
+
 func init() {
+	commands["asc"] = func(c Val) Val { return ascDecode(c.At(1).Bytes()) }
+	commands["ascb"] = func(c Val) Val { return ascDecode(c.Bytes()) }
 	commands["h264"] = func(c Val) Val { return h264Decode(c.At(1).Bytes()) }
 	commands["h264b"] = func(c Val) Val { return h264Decode(c.Bytes()) }
 	commands["unescape"] = func(c Val) Val {
